@@ -98,8 +98,46 @@ class C11(Property):
 
     def _make(self, cls, d):
         if "interface_width" in d:
-            return cls(*gen.as_given(d["position"], d["radius"], d), d["interface_width"])
-        return cls(*gen.as_given(d["position"], d["radius"], d))
+            obj = cls(*gen.as_given(d["position"], d["radius"], d), d["interface_width"])
+        else:
+            obj = cls(*gen.as_given(d["position"], d["radius"], d))
+        return self._provenance(obj, d)
+
+    def _provenance(self, obj, d):
+        """The same droplet as it comes out of other public routes: a copy, a pickle round trip (as between processes), an
+        emulsion read back member by member, or - for diffuse droplets - the object returned by refine_droplet (whose
+        parameters are then set to the wanted values through the public setters)."""
+        import copy
+        import hashlib
+        import json
+        import pickle
+
+        h = hashlib.sha256(json.dumps(d, sort_keys=True).encode()).digest()[5] % 8
+        if h == 1:
+            return obj.copy()
+        if h == 2:
+            return pickle.loads(pickle.dumps(obj))
+        if h == 3:
+            return copy.deepcopy(obj)
+        if h == 4:
+            from droplets import Emulsion
+
+            return Emulsion([obj])[0]
+        if h == 5 and "interface_width" in d:
+            from pde import UnitGrid
+
+            from droplets import DiffuseDroplet
+            from droplets.image_analysis import refine_droplet
+
+            dim = len(d["position"])
+            grid = UnitGrid([8] * dim)
+            seed_drop = DiffuseDroplet([4.0] * dim, 2.0, 1.0)
+            res = refine_droplet(seed_drop.get_phase_field(grid), DiffuseDroplet([4.2] * dim, 2.1, 1.0))
+            res.position = np.array(d["position"], float)
+            res.radius = float(d["radius"])
+            res.interface_width = d["interface_width"]
+            return res
+        return obj
 
     def check(self, spec, ctx: Ctx):
         import droplets
